@@ -104,6 +104,10 @@ fn check_enc(c: &EncCase, obs: &mut Obs) -> CheckResult {
     let offending = fill(c.len, c.seed);
     let bytes = vcore::no_panic("ScionScmpPacket::try_encode_to_vec", || spec.to_sut().try_encode_to_vec())?.map_err(|e| Fail::new("scmp-error-not-encodable", format!("{e}; {spec:?}")))?;
     verify_error_packet(&bytes, Some(&offending), "encoded")?;
+    // the same packet encoded into a reused buffer that still holds other data
+    let mut dirty = vec![0xa5u8; bytes.len() + 7];
+    let n = vcore::no_panic("ScionScmpPacket::try_encode", || spec.to_sut().try_encode(&mut dirty))?.map_err(|e| Fail::new("scmp-error-not-encodable-into-buffer", e))?;
+    ensure!(dirty[..n] == bytes[..], "encoded:depends-on-buffer-contents", "try_encode into a reused buffer gives other bytes than try_encode_to_vec (first difference at {:?})", dirty[..n].iter().zip(bytes.iter()).position(|(a, b)| a != b));
     let hdr_len = spec.header_len();
     let fixed = 4 + rw::RScmp::fixed_len(bytes[hdr_len]).unwrap_or(4);
     if hdr_len + fixed + c.len > rw::SCMP_ERROR_MAX {
